@@ -104,7 +104,10 @@ fn kink_rel() -> f64 {
 /// max(0, x); derivative 1 for x > 0 and 0 otherwise (corgi's documented convention at 0)
 pub fn relu(a: &T) -> T {
     map(a, |x| {
-        if x.vm > 0.0 && x.v.abs() <= kink_rel() * x.vm {
+        // ... and a non-zero input below the smallest normal number of the working precision may have underflowed
+        // to zero in the library (sigmoid(-192) is 4e-84, which is 0 in single precision)
+        let tiny = if kink_rel() > 1e-6 { 1e-36 } else { 1e-300 };
+        if x.vm > 0.0 && (x.v.abs() <= kink_rel() * x.vm || x.v.abs() < tiny) {
             KINKS.with(|k| k.set(k.get() + 1));
         }
         if x.v > 0.0 {
@@ -117,7 +120,14 @@ pub fn relu(a: &T) -> T {
 pub fn sigmoid(a: &T) -> T {
     map(a, |x| {
         let s = 1.0 / (1.0 + (-x.v).exp());
-        x.unary(s, s * (1.0 - s), 0.1)
+        // |s''| <= 0.1 everywhere and <= e^-|t| for every t in the neighbourhood the argument may lie in: in the
+        // saturated tails the slope is not ill-conditioned, so a non-finite library value there is not "noise"
+        let spread = (x.vm - x.v.abs()).max(0.0) + x.v.abs() * 1e-3;
+        let fpp = (-(x.v.abs() - spread).max(0.0)).exp().min(0.1);
+        let fp = s * (1.0 - s);
+        // the slope formed as s (1 - s) cancels where s is near one: an absolute error of one rounding of s, which the
+        // term s^2 / 1000 covers in both precisions and which vanishes in the other tail
+        Dual::lin(s, s.abs() + fp.abs() * x.vm, &[(x, fp, fp.abs() + fpp * spread + 1e-3 * s * s)])
     })
 }
 /// exponentials divided by their sum over the last dimension
@@ -277,7 +287,7 @@ pub fn matmul(a: &T, ta: bool, b: &T, tb: bool, c: Option<&T>) -> R<T> {
 /// Direct sliding-window convolution (property C06).
 /// image [batch..., depth, rows, cols], filters [count, depth, frows, fcols], strides (sr, sc)
 pub fn conv(img: &T, filt: &T, sr: usize, sc: usize) -> R<T> {
-    if img.rank() < 3 || filt.rank() != 4 {
+    if img.rank() < 3 || (filt.rank() != 4 && filt.rank() != 3) {
         return ood("conv ranks");
     }
     if sr == 0 || sc == 0 {
@@ -285,7 +295,9 @@ pub fn conv(img: &T, filt: &T, sr: usize, sc: usize) -> R<T> {
     }
     let n = img.rank();
     let (depth, rows, cols) = (img.dims[n - 3], img.dims[n - 2], img.dims[n - 1]);
-    let (count, fdepth, fr, fc) = (filt.dims[0], filt.dims[1], filt.dims[2], filt.dims[3]);
+    // a filter array without a count dimension is a single filter
+    let fo = filt.rank() - 3;
+    let (count, fdepth, fr, fc) = (if fo == 1 { filt.dims[0] } else { 1 }, filt.dims[fo], filt.dims[fo + 1], filt.dims[fo + 2]);
     if fdepth != depth {
         return ood("filter depth differs from image depth");
     }
@@ -377,7 +389,9 @@ pub fn in_wide_domain(op: &OpKind, operands: &[&T], lo: f64, hi: f64, exp_max: f
         Div => absrng(operands[1], lo, hi),
         Recip => absrng(operands[0], lo, hi),
         Ln | CostCe => rng(operands[0], lo, hi),
-        Exp | Softmax | Sigmoid | ActSoftmax | ActSigmoid => operands[0].vals.iter().all(|x| x.v >= -exp_max && x.v <= exp_max),
+        Exp | Softmax | ActSoftmax => operands[0].vals.iter().all(|x| x.v >= -exp_max && x.v <= exp_max),
+        // the logistic function and its slope are finite for every finite argument, also where e^-x overflows
+        Sigmoid | ActSigmoid => absrng(operands[0], 0.0, hi),
         Powf(e) => {
             if *e == e.trunc() && *e >= 1.0 {
                 absrng(operands[0], 0.0, hi.powf(0.25))
